@@ -7,7 +7,12 @@
 //   cmp5 <h> <s>        compare(pos1,n1,s,pos2,n2)  (block C)
 //   enum <alphabet> <maxh> <maxs> <c5h> <c5s> <k> <m>   all h over the alphabet with |h|<=maxh (only those with
 //                                               index = k mod m): H; all s, |s|<=maxs: P; C when |h|<=c5h and |s|<=c5s
-//   a leading 'v' (vhay, vpair, vcmp5) additionally prints one line per call.
+//   mid  <buf> <o> <l>  unary queries on the view buf[o,o+l) inside the heap block holding buf   (block M)
+//   alias <buf> <o1> <l1> <o2> <l2>   binary queries with hay = buf[o1,o1+l1), needle = buf[o2,o2+l2), both views
+//                                     into the SAME heap block (aliasing / overlapping / prefix-of-itself)   (block A)
+//   aenum <alphabet> <minlen> <maxlen> <k> <m>   all buffers (index = k mod m): every sub-range M, every pair of sub-ranges A
+//   "~" instead of a hex string = a default-constructed view (data() == nullptr)
+//   a leading 'v' (vhay, vpair, vcmp5, vmid, valias) additionally prints one line per call.
 // output, one line per block:
 //   B <kind> <h> <s> <ncalls> <hash tlx> <hash std> <#calls where tlx != std> [first such call]
 // The order of calls inside a block is mirrored exactly by ocaml/C18_driver.ml (which prints
@@ -56,17 +61,17 @@ static std::string hex(const std::string& s) {
 }
 static std::string unhex(const std::string& h) {
     std::string o;
-    if (h == "-") return o;
+    if (h == "-" || h == "~") return o;
     for (size_t i = 0; i + 1 < h.size(); i += 2) o += static_cast<char>(std::stoi(h.substr(i, 2), nullptr, 16));
     return o;
 }
 
 // ---------------------------------------------------------------- current call (for crash reports)
-static struct Cur { char kind; const std::string* h; const std::string* s; const char* name; long a[4]; int na; long idx; } g_cur;
+static struct Cur { char kind; const std::string* h; const std::string* s; const char* name; long a[4]; int na; long idx; } g_cur;   // h, s: the block's two label fields
 
 static void describe_cur(char* buf, size_t len) {
-    int k = snprintf(buf, len, "%c %s %s %ld %s", g_cur.kind, g_cur.h ? hex(*g_cur.h).c_str() : "?",
-                     g_cur.s ? hex(*g_cur.s).c_str() : "?", g_cur.idx, g_cur.name ? g_cur.name : "?");
+    int k = snprintf(buf, len, "%c %s %s %ld %s", g_cur.kind, g_cur.h ? g_cur.h->c_str() : "?",
+                     g_cur.s ? g_cur.s->c_str() : "?", g_cur.idx, g_cur.name ? g_cur.name : "?");
     for (int i = 0; i < g_cur.na && k < (int)len; ++i) k += snprintf(buf + k, len - k, "%c%ld", i ? ',' : ' ', g_cur.a[i]);
 }
 static void crash_report(const char* why) {
@@ -87,13 +92,29 @@ struct Block {
     // ASan sees any read past the end of a view
     std::unique_ptr<char[]> hb, sb;
     TV T, X; SV S, Y;
+    std::string lh, ls;          // the two label fields of the output line (hex of h and s unless set otherwise)
+    const char* alias_cs = nullptr;
     Block(char k, const std::string& h_, const std::string& s_, bool v)
-        : kind(k), h(h_), s(s_), verbose(v), hb(new char[h_.size()]), sb(new char[s_.size()]) {
+        : kind(k), h(h_), s(s_), verbose(v), hb(new char[h_.size()]), sb(new char[s_.size()]), lh(hex(h_)), ls(hex(s_)) {
         std::memcpy(hb.get(), h_.data(), h_.size());
         std::memcpy(sb.get(), s_.data(), s_.size());
         T = TV(hb.get(), h_.size()); X = TV(sb.get(), s_.size());
         S = SV(hb.get(), h_.size()); Y = SV(sb.get(), s_.size());
     }
+    // aliasing family: both views are sub-ranges [o1, o1+|h|) and [o2, o2+|s|) of ONE heap block holding buf
+    // (followed by one NUL so that buf + o2 is also a valid C string for the const char* overloads)
+    Block(char k, const std::string& h_, const std::string& s_, bool v, const std::string& buf, size_t o1, size_t o2,
+          const std::string& label2)
+        : kind(k), h(h_), s(s_), verbose(v), hb(new char[buf.size() + 1]), sb(new char[0]), lh(hex(buf)), ls(label2) {
+        std::memcpy(hb.get(), buf.data(), buf.size());
+        hb[buf.size()] = '\0';
+        T = TV(hb.get() + o1, h_.size()); X = TV(hb.get() + o2, s_.size());
+        S = SV(hb.get() + o1, h_.size()); Y = SV(hb.get() + o2, s_.size());
+        alias_cs = hb.get() + o2;
+    }
+    // default-constructed (data() == nullptr) empty views instead of empty views with a valid pointer
+    void null_h() { T = TV(); S = SV(); lh = "~"; }
+    void null_s() { X = TV(); Y = SV(); ls = "~"; }
 
     static void mix(uint64_t& hh, const Vals& r) {
         hh = (hh * 1000003ull + static_cast<uint64_t>(r.n + 3)) & MASK;
@@ -107,7 +128,7 @@ struct Block {
     // f(out, view, other view): same expression on both libraries
     template <class F>
     void call(const char* name, std::initializer_list<long> args, F f) {
-        g_cur.kind = kind; g_cur.h = &h; g_cur.s = &s; g_cur.name = name; g_cur.idx = ncalls; g_cur.na = 0;
+        g_cur.kind = kind; g_cur.h = &lh; g_cur.s = &ls; g_cur.name = name; g_cur.idx = ncalls; g_cur.na = 0;
         for (long a : args) if (g_cur.na < 4) g_cur.a[g_cur.na++] = a;
         Vals t, r;
         try { f(t, T, X); } catch (const std::out_of_range&) { t.n = 0; t.push(-2); } catch (...) { t.n = 0; t.push(-3); }
@@ -117,7 +138,7 @@ struct Block {
     // different expressions (member missing in std)
     template <class F, class G>
     void call2(const char* name, std::initializer_list<long> args, F f, G g) {
-        g_cur.kind = kind; g_cur.h = &h; g_cur.s = &s; g_cur.name = name; g_cur.idx = ncalls; g_cur.na = 0;
+        g_cur.kind = kind; g_cur.h = &lh; g_cur.s = &ls; g_cur.name = name; g_cur.idx = ncalls; g_cur.na = 0;
         for (long a : args) if (g_cur.na < 4) g_cur.a[g_cur.na++] = a;
         Vals t, r;
         try { f(t, T, X); } catch (const std::out_of_range&) { t.n = 0; t.push(-2); } catch (...) { t.n = 0; t.push(-3); }
@@ -139,7 +160,7 @@ struct Block {
         ++ncalls;
     }
     void finish() {
-        printf("B %c %s %s %ld %llu %llu %ld%s%s\n", kind, hex(h).c_str(), hex(s).c_str(), ncalls,
+        printf("B %c %s %s %ld %llu %llu %ld%s%s\n", kind, lh.c_str(), ls.c_str(), ncalls,
                (unsigned long long)ht, (unsigned long long)hs, nmis, first.empty() ? "" : " | ", first.c_str());
     }
 };
@@ -156,11 +177,10 @@ static long L(size_t x) { return x == NPOS ? -1 : static_cast<long>(x); }
 static const char ALPHA5[5] = {'\x00', 'a', 'b', '\x80', '\xFF'};
 
 // ---------------------------------------------------------------- block H: unary queries
-static void block_hay(const std::string& h, bool verbose) {
-    static const std::string none;
-    Block b('H', h, none, verbose);
+static void run_hay(Block& b) {
+    const std::string& h = b.h;
     const std::vector<size_t> P = positions(h.size());
-    const char* base = b.hb.get();
+    const char* base = b.T.data();
     b.call("size", {}, [](Vals& o, auto v, auto) { o.size_t_(v.size()); o.size_t_(v.length()); o.boolean(v.empty()); });
     for (size_t pos : P)
         b.call("at", {L(pos)}, [=](Vals& o, auto v, auto) { o.ch(v.at(pos)); });
@@ -200,10 +220,27 @@ static void block_hay(const std::string& h, bool verbose) {
     }
     b.finish();
 }
+static const std::string NONE;
+static void block_hay(const std::string& h, bool verbose, bool null_h = false) {
+    Block b('H', h, NONE, verbose);
+    if (null_h) b.null_h();
+    run_hay(b);
+}
+// block M: the unary queries on a view into the MIDDLE of a larger buffer: reads before / past the view hit
+// valid but foreign bytes (no ASan redzone), so only a wrong result can show them
+static void block_mid(const std::string& buf, size_t o, size_t l, bool verbose) {
+    if (o + l > buf.size()) { printf("? bad mid range\n"); return; }
+    std::string sub = buf.substr(o, l);
+    Block b('M', sub, NONE, verbose, buf, o, 0, std::to_string(o) + "," + std::to_string(l));
+    b.X = TV(); b.Y = SV();
+    run_hay(b);
+}
 
 // ---------------------------------------------------------------- block P: binary queries
-static void block_pair(const std::string& h, const std::string& s, bool verbose) {
+static void block_pair(const std::string& h, const std::string& s, bool verbose, bool null_h = false, bool null_s = false) {
     Block b('P', h, s, verbose);
+    if (null_h) b.null_h();
+    if (null_s) b.null_s();
     const std::vector<size_t> P = positions(h.size());
     const std::vector<size_t> F = few_positions(h.size());
     const std::string str = s;            // for the std::string overloads
@@ -257,6 +294,49 @@ static void block_pair(const std::string& h, const std::string& s, bool verbose)
     b.finish();
 }
 
+// ---------------------------------------------------------------- block A: binary queries on ALIASING views
+// hay = buf[o1, o1+l1), needle = buf[o2, o2+l2) inside one heap block: same start & different lengths, same end,
+// overlapping, identical, adjacent, disjoint -- whatever the two ranges are. The const char* overloads get buf + o2
+// (a C string running to the first NUL in the buffer or to the terminator behind it).
+static void block_alias(const std::string& buf, size_t o1, size_t l1, size_t o2, size_t l2, bool verbose) {
+    if (o1 + l1 > buf.size() || o2 + l2 > buf.size()) { printf("? bad alias range\n"); return; }
+    std::string h = buf.substr(o1, l1), s = buf.substr(o2, l2);
+    Block b('A', h, s, verbose, buf, o1, o2,
+            std::to_string(o1) + "," + std::to_string(l1) + "," + std::to_string(o2) + "," + std::to_string(l2));
+    const std::vector<size_t> P = positions(h.size());
+    const std::vector<size_t> F = few_positions(h.size());
+    const char* cs = b.alias_cs;
+    b.call("compare", {}, [](Vals& o, auto v, auto x) { o.sign(v.compare(x)); });
+    b.call("rel_sv", {}, [](Vals& o, auto v, auto x) {
+        o.boolean(v == x); o.boolean(v != x); o.boolean(v < x); o.boolean(v > x); o.boolean(v <= x); o.boolean(v >= x); });
+    b.call("rel_sv_cstr", {}, [=](Vals& o, auto v, auto) {
+        o.boolean(v == cs); o.boolean(v != cs); o.boolean(v < cs); o.boolean(v > cs); o.boolean(v <= cs); o.boolean(v >= cs); });
+    b.call("rel_cstr_sv", {}, [=](Vals& o, auto v, auto) {
+        o.boolean(cs == v); o.boolean(cs != v); o.boolean(cs < v); o.boolean(cs > v); o.boolean(cs <= v); o.boolean(cs >= v); });
+    b.call("compare_cstr", {}, [=](Vals& o, auto v, auto) { o.sign(v.compare(cs)); });
+    b.call("starts_with", {}, [](Vals& o, auto v, auto x) { o.boolean(v.starts_with(x)); });
+    b.call("ends_with", {}, [](Vals& o, auto v, auto x) { o.boolean(v.ends_with(x)); });
+    for (size_t pos : P) {
+        b.call("find", {L(pos)}, [=](Vals& o, auto v, auto x) { o.size_t_(v.find(x, pos)); });
+        b.call("rfind", {L(pos)}, [=](Vals& o, auto v, auto x) { o.size_t_(v.rfind(x, pos)); });
+        b.call("find_first_of", {L(pos)}, [=](Vals& o, auto v, auto x) { o.size_t_(v.find_first_of(x, pos)); });
+        b.call("find_last_of", {L(pos)}, [=](Vals& o, auto v, auto x) { o.size_t_(v.find_last_of(x, pos)); });
+        b.call("find_first_not_of", {L(pos)}, [=](Vals& o, auto v, auto x) { o.size_t_(v.find_first_not_of(x, pos)); });
+        b.call("find_last_not_of", {L(pos)}, [=](Vals& o, auto v, auto x) { o.size_t_(v.find_last_not_of(x, pos)); });
+    }
+    for (size_t pos : F) {
+        b.call("find_cstr", {L(pos)}, [=](Vals& o, auto v, auto) { o.size_t_(v.find(cs, pos)); });
+        b.call("rfind_cstr", {L(pos)}, [=](Vals& o, auto v, auto) { o.size_t_(v.rfind(cs, pos)); });
+    }
+    for (size_t pos1 : F) for (size_t n1 : F)
+        b.call("compare3", {L(pos1), L(n1)}, [=](Vals& o, auto v, auto x) { o.sign(v.compare(pos1, n1, x)); });
+    static const size_t TWO_POS[2] = {0, 1}, TWO_N[2] = {1, NPOS};
+    for (size_t pos1 : TWO_POS) for (size_t n1 : TWO_N) for (size_t pos2 : TWO_POS) for (size_t n2 : TWO_N)
+        b.call("compare5", {L(pos1), L(n1), L(pos2), L(n2)},
+               [=](Vals& o, auto v, auto x) { o.sign(v.compare(pos1, n1, x, pos2, n2)); });
+    b.finish();
+}
+
 // ---------------------------------------------------------------- block C: five-argument compare
 static void block_cmp5(const std::string& h, const std::string& s, bool verbose) {
     Block b('C', h, s, verbose);
@@ -296,8 +376,28 @@ int main(int argc, char** argv) {
         if (k < 1 || kind[0] == '#') continue;
         std::string kd = kind; bool verbose = false;
         if (kd[0] == 'v') { verbose = true; kd = kd.substr(1); }
-        if (kd == "hay" && k >= 2) block_hay(unhex(a), verbose);
-        else if (kd == "pair" && k >= 3) block_pair(unhex(a), unhex(b), verbose);
+        // "~" = default-constructed view (data() == nullptr), "-" = empty view with a valid pointer
+        if (kd == "hay" && k >= 2) block_hay(unhex(a), verbose, std::strcmp(a, "~") == 0);
+        else if (kd == "pair" && k >= 3) block_pair(unhex(a), unhex(b), verbose, std::strcmp(a, "~") == 0, std::strcmp(b, "~") == 0);
+        else if (kd == "mid" && sscanf(line, "%*s %1023s %lu %lu", a, &m1, &m2) == 3) block_mid(unhex(a), m1, m2, verbose);
+        else if (kd == "alias" && sscanf(line, "%*s %1023s %lu %lu %lu %lu", a, &m1, &m2, &m3, &m4) == 5)
+            block_alias(unhex(a), m1, m2, m3, m4, verbose);
+        else if (kd == "aenum" && sscanf(line, "%*s %1023s %lu %lu %lu %lu", a, &m1, &m2, &part, &parts) == 5 && parts > 0) {
+            // all buffers over the alphabet with m1 <= |buf| <= m2 (those with index = part mod parts):
+            // every sub-range: M; every ordered pair of sub-ranges: A
+            std::string alpha = unhex(a);
+            std::vector<std::string> bufs = all_strings(alpha, m2);
+            for (size_t bi = 0; bi < bufs.size(); ++bi) {
+                const std::string& buf = bufs[bi];
+                if (buf.size() < m1 || bi % parts != part) continue;
+                const size_t n = buf.size();
+                for (size_t o1 = 0; o1 <= n; ++o1) for (size_t l1 = 0; o1 + l1 <= n; ++l1) {
+                    block_mid(buf, o1, l1, false);
+                    for (size_t o2 = 0; o2 <= n; ++o2) for (size_t l2 = 0; o2 + l2 <= n; ++l2)
+                        block_alias(buf, o1, l1, o2, l2, false);
+                }
+            }
+        }
         else if (kd == "cmp5" && k >= 3) block_cmp5(unhex(a), unhex(b), verbose);
         else if (kd == "enum" && sscanf(line, "%*s %1023s %lu %lu %lu %lu %lu %lu", a, &m1, &m2, &m3, &m4, &part, &parts) == 7 && parts > 0) {
             std::string alpha = unhex(a);
